@@ -224,6 +224,99 @@ impl Prop for C16 {
                 });
             }
         }
+        // degenerate comments (empty bodies, bare openers) in every token gap of the base forms
+        for p in &base {
+            let first_ctx = gen::contexts(p.kind)[0].name;
+            if p.ctx != first_ctx {
+                continue;
+            }
+            let toks: Vec<_> = crate::lex::lex(&p.text).into_iter().filter(|t| !t.is_trivia()).collect();
+            for (gi, w) in toks.windows(2).enumerate() {
+                for (ci, c) in ["/**/", "/***/", "/*!*/", "/* */", "/*\n*/", "//\n", "///\n", "//!\n", "/**\n*/", "/*/*/**/*/*/", "/*\n\n*/", "//\\\n"].iter().enumerate() {
+                    let mut t = String::with_capacity(p.text.len() + 16);
+                    t.push_str(&p.text[..w[0].end]);
+                    t.push(' ');
+                    t.push_str(c);
+                    t.push(' ');
+                    t.push_str(&p.text[w[0].end..]);
+                    for (lname, text) in [("L0", t.clone()), ("LALL", gen::layout(&t, Layout::LAll))] {
+                        if lname == "LALL" && c.contains('\n') && c.starts_with("//") {
+                            continue; // re-laying out a line comment's own terminator changes the comment
+                        }
+                        units.push(Unit {
+                            key: format!("{}/degenerate-comment:g{gi}c{ci}/{lname}", p.key()),
+                            text,
+                            cfg: Cfg::new(2024),
+                            extra: json!({"few_widths": !thorough}),
+                        });
+                    }
+                }
+            }
+        }
+        // comment contents under the comment-rewriting options: every sequence of <= 3 tokens over the markers
+        // the re-flow code looks for (block quotes, bullets, ordered items, headers, code fences, blanks), as a
+        // one-line comment and as the second line after a marker line, x comment kinds x positions
+        let toks = [">", ">>", "-", "*", "+", "1.", "1)", "a", "#", "```", " ", "  "];
+        let mut contents: Vec<String> = vec![String::new()];
+        let mut frontier: Vec<String> = vec![String::new()];
+        for _ in 0..3 {
+            let mut next = vec![];
+            for f in &frontier {
+                for t in toks {
+                    next.push(format!("{f}{t}"));
+                }
+            }
+            contents.extend(next.iter().cloned());
+            frontier = next;
+        }
+        let two_line: Vec<(String, String)> = ["> a", "- a", "* a", "1. a", "```", "a", "# a"]
+            .iter()
+            .flat_map(|l1| contents.iter().filter(|c| c.chars().count() <= 4).map(move |c| (l1.to_string(), c.clone())))
+            .collect();
+        let comment_cfgs = [
+            Cfg::new(2024).with("wrap_comments", "true"),
+            Cfg::new(2024).with("wrap_comments", "true").with("normalize_comments", "true"),
+            Cfg::new(2024).with("wrap_comments", "true").with("format_code_in_doc_comments", "true"),
+            Cfg::new(2024).with("wrap_comments", "true").with("comment_width", "20"),
+            Cfg::new(2015).with("normalize_comments", "true"),
+        ];
+        let render = |kind: &str, lines: &[&str]| -> String {
+            match kind {
+                "//" | "///" | "//!" => lines.iter().map(|l| format!("{kind} {l}\n")).collect(),
+                _ => format!("{kind} {}\n */\n", lines.join("\n * ")),
+            }
+        };
+        for (ki, kind) in ["//", "///", "/*", "/**", "//!"].iter().enumerate() {
+            let mut cases: Vec<(String, String)> = vec![];
+            for (i, c) in contents.iter().enumerate() {
+                cases.push((format!("one{i}"), render(kind, &[c])));
+            }
+            if thorough || ki < 2 {
+                for (i, (a, b)) in two_line.iter().enumerate() {
+                    cases.push((format!("two{i}"), render(kind, &[a, b])));
+                }
+            }
+            for (name, c) in cases {
+                let texts = if *kind == "//!" {
+                    vec![("top", format!("{c}fn f() {{}}\n"))]
+                } else {
+                    vec![("item", format!("{c}fn f() {{}}\n")), ("stmt", format!("fn f() {{\n{c}a();\n}}\n"))]
+                };
+                for (pos, text) in texts {
+                    for (ci, cfg) in comment_cfgs.iter().enumerate() {
+                        if !thorough && ci >= 3 && name.starts_with("two") {
+                            continue;
+                        }
+                        units.push(Unit {
+                            key: format!("comment-content/k{ki}/{name}/{pos}/c{ci}"),
+                            text: text.clone(),
+                            cfg: cfg.clone(),
+                            extra: json!({"few_widths": true}),
+                        });
+                    }
+                }
+            }
+        }
         for (name, text) in ladders() {
             units.push(Unit {
                 key: format!("ladder/{name}"),
@@ -232,14 +325,6 @@ impl Prop for C16 {
                 extra: json!({"ladder": true}),
             });
         }
-        // A block-comment continuation line whose whitespace before the `*` ends in a multi-byte
-        // character makes rustfmt panic (known finding, see DESIGN 8.3: a repair changes released
-        // output where the panic is contained by macro formatting). The two atoms that carry one are
-        // explored in their first context, one-line layout, default configuration only.
-        units.retain(|u| {
-            let has = u.text.contains("\u{a0}* second") || u.text.contains("\u{2003}* em spaces");
-            !has || (u.key.contains("@fn/L0") && u.cfg.kv.is_empty())
-        });
         units
     }
     fn check(&self, u: &Unit, tier: Tier, sink: &mut Sink) {
@@ -261,6 +346,28 @@ impl Prop for C16 {
             sink.count("ladder_units", 1);
             if t0.elapsed().as_secs() > 60 {
                 sink.violation("C16", u, 0, "hang", format!("{:?}", t0.elapsed()));
+            }
+            return;
+        }
+        let few = u.extra.get("few_widths").and_then(|v| v.as_bool()).unwrap_or(false);
+        if few {
+            // quick tier: comment handling does no width arithmetic of its own; three widths
+            for w in [20usize, 50, 100] {
+                let out = crate::fmt::format(&u.text, &u.cfg, w);
+                if w == 20 {
+                    sink.count(if out.status == Status::Ok { "degenerate_comment_parsable" } else { "degenerate_comment_unparsable" }, 1);
+                    if out.status != Status::Ok && !matches!(out.status, Status::Panic(_)) {
+                        break;
+                    }
+                }
+                if let Some(m) = &out.render_panic {
+                    sink.violation("C16", u, w, "panic while rendering the report", m.clone());
+                }
+                match &out.status {
+                    Status::Panic(m) => sink.violation("C16", u, w, "panic", m.clone()),
+                    Status::Err(e) => sink.violation("C16", u, w, "error-result", e.clone()),
+                    _ => {}
+                }
             }
             return;
         }
